@@ -72,12 +72,12 @@ def klass(role: str, loc) -> str:
     if role == "rt":
         if "B" in loc:
             return "rt-backslash-in-authority"
-        if "a" in loc and "8" in loc and ":" in loc[3:]:
-            return "rt-allowlisted-host-other-port"
         if "[" in loc:
             return "rt-ipv6-literal"
         if "@" in loc:
             return "rt-userinfo"
+        if "a" in loc and "8" in loc and ":" in loc[3:]:
+            return "rt-allowlisted-host-other-port"
         if any(t in loc for t in ("l", "i", "a")):
             return "rt-lookalike-host"
         return "rt-other"
@@ -369,7 +369,7 @@ def _run(ctx: Ctx) -> None:
                         unjudged["n"] += 1
                 # logout: the one redirect of the flow that takes no target from the request
                 qu = quote(u, safe="")
-                r = get(client, "/_oauth/logout", f"_vgi_return_to={qu}&next={qu}&return_to={qu}&redirect_uri={qu}",
+                r = get(client, "/_oauth/logout", f"next={qu}&return_to={qu}&redirect_uri={qu}&url={qu}",
                         {**html, "Referer": u if u.isprintable() else "http://svc.test:8000/", "Cookie": f"{pk._AUTH_COOKIE_NAME}={world.token}"})
                 ctx.case(["rt", "noport", u, "logout"])
                 if not isinstance(r, Exception) and r.status_code in (301, 302, 303, 307, 308):
